@@ -102,6 +102,14 @@ size_t bad_outlen(uint32_t r) {
 	default: return 65 + (r >> 3) % 1000;
 	}
 }
+// a message chunk placed so that it ends at an inaccessible page (an over-read of one byte faults); one slot per simulated thread
+static uint8_t *edge_place(int task, size_t len) {
+	static uint8_t *base[17] = {nullptr};
+	const size_t PG = 4096, DATA = 4 * PG;
+	uint8_t *&b = base[task >= 0 && task <= 16 ? task : 0];
+	if (!b) { void *m = mmap(nullptr, DATA + PG, PROT_READ | PROT_WRITE, MAP_PRIVATE | MAP_ANONYMOUS, -1, 0); if (m == MAP_FAILED) return nullptr; mprotect((uint8_t *)m + DATA, PG, PROT_NONE); b = (uint8_t *)m; }
+	return len <= DATA ? b + DATA - len : nullptr;
+}
 static const uint8_t CANARY = 0xC7;
 bool canary_ok(const uint8_t *p, size_t n) { for (size_t i = 0; i < n; ++i) if (p[i] != CANARY) return false; return true; }
 
@@ -147,6 +155,7 @@ Result run(const Plan11 &p) {
 				chunk.resize((size_t)n + 1);
 				msg_bytes(t.msgseed, l.fed, chunk.data(), (size_t)n);
 				data = chunk.data();
+				if (n && si % 3 != 0) { uint8_t *e = edge_place(rt::sched_current_task(), (size_t)n); if (e) { memcpy(e, chunk.data(), (size_t)n); data = e; } }
 			}
 			if (n == 0 && (st.a & 1)) data = nullptr; // an empty chunk may be passed as (NULL, 0)
 			int rc = LIB(blake2b_update(&l.st, data, (size_t)n));
